@@ -1,7 +1,6 @@
-\* Project.tla as the PINNED TREE behaves (Dev = all named deviations): prints every labelled edge of
-\* the projected state graph (-workers 1) for replay into the real generator (thorough tier).
-\* 2 resolver fields (Query.f1, T.g) x 2 schema files x 3 edit records x 2 helper tokens x 5 import
-\* tokens x both resolver layouts x histories <= 4.  Measured: see notes/C19.md.
+\* As MC_Project_edges.cfg, thorough tier of C19: 3 resolver fields, 3 edit records, helpers {h, hc}, imports
+\* {alias, asfx, arsv, blank, blank2}, start = empty project or f1 + g in a.graphqls, histories <= 3.
+\* Measured: 4 217 states, 11 970 edges (584 Generate edges), 7 s.
 INIT Init
 NEXT Next
 CONSTANTS
